@@ -556,7 +556,8 @@ def r06_6(chk: Check):
     okc = set(kinds) == {(3, "self.TMaxLowT"), (2, "self.TMaxHighT")} and len(shown) == 2
     V1, V2 = kinds.get((3, "self.TMaxLowT")), kinds.get((2, "self.TMaxHighT"))
     early = [r for r in rets if eqx(r.value, "self.vJ")]
-    final = [r for r in rets if r not in early and V1 and V2 and same_term(S, "hydrodynamics", "Hydrodynamics", r.value, f"min({V1}, {V2})")]
+    # (the two roots must live in two variables: one variable overwritten by the second search keeps only the last limit found)
+    final = [r for r in rets if r not in early and V1 and V2 and V1 != V2 and same_term(S, "hydrodynamics", "Hydrodynamics", r.value, f"min({V1}, {V2})")]
     chk.ob("R06.6", ff.where(), "fastestDeflag returns the smaller of the two range-limited velocities", len(final) >= 1,
            "; ".join(n(r.value) for r in rets if r not in early), key="fastest|min")
     # vmax1 from the T- root against TMaxLowT, vmax2 from the T+ root against TMaxHighT  (sides: R02.4); here: flags
@@ -662,18 +663,18 @@ def r06_6(chk: Check):
 
 
 def rules(chk: Check) -> None:
-    r06_1(chk)
-    r06_2(chk)
-    r06_3(chk)
-    r06_4(chk)
-    r06_5(chk)
-    r06_6(chk)
+    for grp in (r06_1, r06_2, r06_3, r06_4, r06_5, r06_6):
+        chk.stage(grp, chk)
     # R06.7: the sound speeds that classify a wall (v- = min(vw, cs-), the Jouguet condition) are those of their own phase, frozen at
     # that phase's own range ends (branch rules of csqHighT / csqLowT shared with C10 R10.1)
     from ..core import Remap
     from . import c10
-    c10.rules(Remap(chk, {"R10.1": "R06.7"}, only=lambda r, k, w: "|csq" in k))
+    chk.stage(c10.rules, Remap(chk, {"R10.1": "R06.7"}, only=lambda r, k, w: "|csq" in k))
     chk.floor("R06.7", 8)
     # R06.8: every branch that depends on the side of the Jouguet velocity is decided with the model's own vJ
     from .shared import own_jouguet_velocity
-    own_jouguet_velocity(chk, "R06.8")
+    chk.stage(own_jouguet_velocity, chk, "R06.8")
+    from .shared import jouguet_compared_with_wall_velocity
+    chk.stage(jouguet_compared_with_wall_velocity, chk, "R06.8")
+    from .shared import per_object_state
+    chk.stage(per_object_state, chk, "R06.8", ("Hydrodynamics", "HydrodynamicsTemplateModel", "Thermodynamics", "FreeEnergy", "InterpolatableFunction"))
